@@ -1,6 +1,6 @@
 /- Driver handler owned by property C03: `c03 <args…>` requests.
 
-   `c03 check <nums…>`  → `ok <blocks>` | `reject <block> <reason>` | `bad-dump`
+   `c03 check <nums…>`  → `ok <blocks>` | `reject <block> <reason> <var> <def-block> <status> <is-aggregate-temp> <is-call-argument>` | `bad-dump`
    `c03 lean <nums…>`   → the item as a Lean term (one line)
    `c03 exec <fuel> <oracle,…> <nums…>` → concrete run of the token semantics from
         `initC` (all parameter variants 0): `done <var>` | `fail <err>` | `running <label>`
@@ -118,6 +118,60 @@ def traceBlock (it : Item) (a : AState) (is : List Instr) : String :=
       | .error e => acc ++ s!" | {n}: ERR {errName e} at {oneLine (toString (repr i))}"
   go a is 0 (String.join (a.map showSt))
 
+/-- the variable an abstract instruction error is about (diagnostics only) -/
+def culprit (it : Item) (a : AState) : Instr → Nat
+  | .drop p _ => p.var
+  | .setDisc v _ _ => v
+  | .assign to _ (.move w) => if aget a w = .whole ∨ aget a w = .empty then to.var else w
+  | .assign to _ (.clone p) => if aget a p.var = .whole ∨ aget a p.var = .empty then to.var else p.var
+  | .assign to _ (.call args) =>
+    match args.find? (fun (w, pty) => it.ndB pty && !(aget a w = .whole ∨ aget a w = .empty)) with
+    | some (w, _) => w
+    | none => to.var
+  | .assign to _ _ => to.var
+
+/-- label of the first block that writes variable `v` -/
+def defBlock (it : Item) (v : Nat) : Nat :=
+  match it.blocks.find? (fun b => b.instrs.any fun
+      | .assign to _ _ => to.var = v
+      | .setDisc w _ _ => w = v
+      | _ => false) with
+  | some b => b.label
+  | none => 999999
+
+/-- `<var> <defining block> <status>` of the variable a rejection is about -/
+def detail (it : Item) (l : Nat) (reason : String) (a other : AState) : String :=
+  let isAgg (v : Nat) : Bool := it.blocks.any fun b => b.instrs.any fun
+    | .assign to _ _ => to.var = v && !to.proj.isEmpty
+    | .setDisc w _ _ => w = v
+    | _ => false
+  let isArg (v : Nat) : Bool := it.blocks.any fun b => b.instrs.any fun
+    | .assign _ _ (.call args) => args.any (fun p => p.1 = v)
+    | _ => false
+  let fmt (v : Nat) (st : String) :=
+    s!"{v} {defBlock it v} {st} {if isAgg v then 1 else 0} {if isArg v then 1 else 0}"
+  if reason = "join" then
+    match (List.range a.length).find? (fun v => (joinSt (aget a v) (aget other v)).isNone) with
+    | some v => fmt v (showSt (aget a v) ++ "/" ++ showSt (aget other v))
+    | none => "- - - 0 0"
+  else match it.findBlock l with
+    | none => "- - - 0 0"
+    | some b =>
+      let rec go (a : AState) : List Instr → String
+        | [] =>
+          -- the terminator failed: a leak at return
+          let rv := match b.term with | .ret v => some v | _ => none
+          match (List.range a.length).find? (fun v => some v ≠ rv ∧ aget a v ≠ .un ∧ aget a v ≠ .empty) with
+          | some v => fmt v (showSt (aget a v))
+          | none => match rv with
+            | some v => fmt v (showSt (aget a v))
+            | none => "- - - 0 0"
+        | i :: rest =>
+          match aInstr it a i with
+          | .ok a' => go a' rest
+          | .error _ => let v := culprit it a i; fmt v (showSt (aget a v))
+      go a b.instrs
+
 def handle (args : List String) : String :=
   match args with
   | "check" :: ws =>
@@ -126,7 +180,7 @@ def handle (args : List String) : String :=
     | some it =>
       match analyse it with
       | .ok cert => s!"ok {cert.length}"
-      | .reject l r _ => s!"reject {l} {r}"
+      | .reject l r a o => s!"reject {l} {r} {detail it l r a o}"
   | "trace" :: ws =>
     match parseItem ws with
     | none => "bad-dump"
@@ -136,7 +190,7 @@ def handle (args : List String) : String :=
           match it.findBlock l with
           | some b => s!"B{l}: " ++ traceBlock it a b.instrs
           | none => s!"B{l}: ?")
-      | .reject l r a => s!"reject {l} {r} :: " ++
+      | .reject l r a _ => s!"reject {l} {r} :: " ++
           (match it.findBlock l with
            | some b => traceBlock it a b.instrs
            | none => "?")
